@@ -58,10 +58,10 @@ func TestMain(m *testing.M) {
 		evid.Spec{Name: "TestReplay", Kind: "plain", QuickShards: 1, ThoroughShards: 1},
 		evid.Spec{Name: "TestExhaustiveSmall", Kind: "plain", QuickShards: 8, ThoroughShards: 16, TimeoutS: 3000},
 		evid.Spec{Name: "TestPropGraph", Kind: "rapid", Quick: 64000, Thorough: 1600000, QuickShards: 8, ThoroughShards: 16},
-		evid.Spec{Name: "TestPropIndex", Kind: "rapid", Quick: 60000, Thorough: 1600000, QuickShards: 6, ThoroughShards: 16},
+		evid.Spec{Name: "TestPropIndex", Kind: "rapid", Quick: 60000, Thorough: 800000, QuickShards: 6, ThoroughShards: 16},
 		evid.Spec{Name: "TestPropFourmer", Kind: "rapid", Quick: 20000, Thorough: 600000, QuickShards: 2, ThoroughShards: 8},
 	)
-	evid.Note("rule", "graph: sets of 1..6 (thorough 10) sequences with counts, k = 2..31, built (a) at random over small alphabets with k = 2..4, (b) as edited/truncated variants of a template (all edit kinds, or substitutions only on a repeat-free template with unequal counts: bubbles and dead-end branches), (c) with a duplicated segment, (d) as one sequence whose (k-1)-mers are all distinct, (e) as pieces of length k-1, k, k+1 of a template; plus every single sequence and every ordered pair of short sequences over {a,c,g,t}. Oracle: dictionary of string k-mers -> sum of count x occurrences; edges rebuilt from the k-mer strings; Kahn's algorithm; longest-path DP over the topological order. Non-trivial graph case = the graph has a cycle or a node with two successors or two predecessors. index: reads of 0..400 nt (thorough 1500) with ambiguity codes and n runs, k = 2..64 with Uint64/Uint128/Uint256, dense (even k) and sparse (odd k); oracle: string windows vs their reverse complement; non-trivial = some window is canonical as itself and some other as its reverse complement. 4-mers: 1..3 successive calls sharing buffers, lengths 0..300 biased to 0..5; oracle: naive window enumeration; non-trivial = some 4-mer occurs twice. Distinct = hash of the whole case.")
+	evid.Note("rule", "graph: sets of 1..6 (thorough 10) sequences with counts, k = 2..31, built (a) at random over small alphabets with k = 2..4, (b) as edited/truncated variants of a template (all edit kinds, or substitutions only on a repeat-free template with unequal counts: bubbles and dead-end branches), (c) with a duplicated segment, (d) as one sequence whose (k-1)-mers are all distinct, (e) as pieces of length k-1, k, k+1 of a template; plus every single sequence and every ordered pair of short sequences over {a,c,g,t}. Oracle: dictionary of string k-mers -> sum of count x occurrences; edges rebuilt from the k-mer strings; Kahn's algorithm; longest-path DP over the topological order. Non-trivial graph case = the graph has a cycle or a node with two successors or two predecessors. index: reads of 0..400 nt (thorough 1000) with ambiguity codes and n runs, k = 2..64 with Uint64/Uint128/Uint256, dense (even k) and sparse (odd k); oracle: string windows vs their reverse complement; non-trivial = some window is canonical as itself and some other as its reverse complement. 4-mers: 1..3 successive calls sharing buffers, lengths 0..300 biased to 0..5; oracle: naive window enumeration; non-trivial = some 4-mer occurs twice. Distinct = hash of the whole case.")
 	// NewKmerMap draws a progress bar on os.Stderr
 	if f, err := os.OpenFile(os.DevNull, os.O_WRONLY, 0); err == nil {
 		os.Stderr = f
@@ -707,7 +707,7 @@ func genIndexParams(t *rapid.T) (limb, k int, sparse bool) {
 
 func genIndex(t *rapid.T) indexCase {
 	limb, k, sparse := genIndexParams(t)
-	maxLen := evid.Pick(400, 1500)
+	maxLen := evid.Pick(400, 1000)
 	l := gen.Len(t, "len", 0, maxLen, k, 2*k, 32, 64, 128)
 	if l < k && rapid.IntRange(0, 3).Draw(t, "longer") > 0 {
 		l += k
